@@ -12,7 +12,7 @@ def dk? : String → Option DK
 
 def flag (s : List Char) (i : Nat) : Bool := s.getD i '0' == '1'
 
-/-- `id:elem:level:depth:block:dk:ty:flags:chars:src:argl:nkids` -/
+/-- `id:elem:level:depth:block:dk:ty:flags:chars:src:argl[:container:isa]:nkids` -/
 def item? (w : String) : Option (Item × Nat) :=
   match w.splitOn ":" with
   | [id, el, lv, dp, bl, dk, ty, fl, ch, sr, al, nk] => do
@@ -23,6 +23,16 @@ def item? (w : String) : Option (Item × Nat) :=
       modeEnd := flag f 0, egroup := flag f 1, isItem := flag f 2, ws := flag f 3, dynws := flag f 4,
       setctr := flag f 5, forcePars := flag f 6, nosub := flag f 7,
       chars := ← nats? ch, src := ← nats? sr, argLeaves := ← nats? al }
+    pure (it, ← nk.toNat?)
+  | [id, el, lv, dp, bl, dk, ty, fl, ch, sr, al, co, isa, nk] => do
+    let f := fl.toList
+    let it : Item := {
+      ref := .item (← id.toNat?), elem := el == "1", level := ← lv.toInt?, depth := ← dp.toInt?,
+      block := bl == "1", dk := ← dk? dk, ty := ← ty.toNat?,
+      modeEnd := flag f 0, egroup := flag f 1, isItem := flag f 2, ws := flag f 3, dynws := flag f 4,
+      setctr := flag f 5, forcePars := flag f 6, nosub := flag f 7,
+      chars := ← nats? ch, src := ← nats? sr, argLeaves := ← nats? al,
+      cont := ← co.toNat?, isa := ← nats? isa }
     pure (it, ← nk.toNat?)
   | _ => none
 
